@@ -161,10 +161,19 @@ def r16c(R):
     A = R.A
     lex = A.cls(LEX, 'Lex')
     un = lex.methods['_unabbreviate']
-    table = None
-    for n in walk_own(un.node):
-        if isinstance(n, ast.Dict):
-            table = A.try_fold(n, un)
+    # evaluate the function for every single letter and a few words: the
+    # table is what it maps to something else (dict lookup or if-chain alike)
+    import string as _string
+    table = {}
+    pname = [p for p in un.params if p not in ('self', 'cls')][0]
+    for probe in list(_string.ascii_letters) + ['hue', 'HUE', 'Hue', 'HS', 'x1', '_']:
+        try:
+            got = A.peval(un, {pname: probe})
+        except Unfoldable as ex:
+            raise AnalysisError('Lex._unabbreviate: cannot evaluate for %r (%s)'
+                                % (probe, ex))
+        if got != probe:
+            table[probe] = got
     regs = A.fold(lex.class_attrs['_REG_LIST'], lex)
     want = {'H': 'hue', 'S': 'saturation', 'B': 'brightness', 'K': 'kelvin'}
     R.check(un, 'abbreviations %s' % table,
@@ -375,12 +384,13 @@ def classless_types(A):
     for n in _ast.walk(hs.node):
         if isinstance(n, _ast.Compare) and isinstance(n.ops[0], _ast.In):
             v = A.try_fold(n.comparators[0], hs)
-            if isinstance(v, (tuple, list)) and all(isinstance(x, EnumVal) for x in v):
+            if isinstance(v, (tuple, list, set, frozenset)) and \
+                    all(isinstance(x, EnumVal) for x in v):
                 strings = set(x.member for x in v)
     lexmod = A.repo.module(LEX)
     nk = lexmod.constants.get('_NON_KEYWORDS')
     non_kw = A.try_fold(nk, lexmod) if nk is not None else None
-    if strings is None or not isinstance(non_kw, (tuple, list)):
+    if strings is None or not isinstance(non_kw, (tuple, list, set, frozenset)):
         raise AnalysisError('has_string / _NON_KEYWORDS tables not found')
     return frozenset(x.member for x in non_kw) - frozenset(strings), strings
 
